@@ -833,6 +833,8 @@ func (x *Exec) val(v ssa.Value) Val {
 		id := "fn!" + sanitize(shortName(c))
 		e.decl(fmt.Sprintf("(declare-const %s Int)", id))
 		e.decl(fmt.Sprintf("(assert (> %s 0))", id))
+		// distinct functions have distinct identities
+		e.decl(fmt.Sprintf("(assert (= (fnIdent %s) %d))", id, fnOrdinal(shortName(c))))
 		x.pureApply(c, id)
 		return Val{T: id, Sort: "Int", GT: c.Type()}
 	case *ssa.Builtin:
@@ -1495,9 +1497,23 @@ func (x *Exec) frameCheck(key, ref string, p token.Pos) {
 
 // preservedKeys: the components a function that `assigns everything` promises
 // to leave alone (`opt preserves`); checked like a frame for verified functions.
+func (x *Exec) assumedLabels() map[string]bool {
+	out := map[string]bool{}
+	if x.fc != nil {
+		for _, l := range splitList(x.fc.Opts["assume"]) {
+			out[l] = true
+		}
+	}
+	return out
+}
+
 func (x *Exec) preservedKeys() map[string]bool {
 	out := map[string]bool{}
 	if x.fc == nil {
+		return out
+	}
+	if x.assumedLabels()["preserves"] {
+		x.enc.assumptionsUsed["assumed frame (not proved): "+x.name+" preserves "+x.fc.Opts["preserves"]] = true
 		return out
 	}
 	for _, pk := range splitList(x.fc.Opts["preserves"]) {
@@ -1605,7 +1621,14 @@ func (x *Exec) returnInstr(in *ssa.Return) {
 	}
 	env := x.envAt(rs)
 	env.paramsEntry = true
+	assumed := x.assumedLabels()
 	for _, c := range x.fc.Ensures {
+		if assumed[c.Label] {
+			// `opt assume LABEL`: a postcondition that is assumed, not proved
+			// (visible to callers, listed as an assumption in the evidence)
+			x.enc.assumptionsUsed["assumed postcondition (not proved): "+x.name+"/"+c.Label+": "+c.Src] = true
+			continue
+		}
 		t := x.evalBool(c.Expr, env, c)
 		x.oblige("post", c.Label, c.Tags, len(c.Tags) == 0, t, c.Src, c.Where+" @return "+x.pos(in.Pos()))
 	}
@@ -1973,6 +1996,9 @@ func (x *Exec) lookupName(name string, at *ssa.BasicBlock, st *State, allowUndef
 						}
 					}
 				}
+				if v, ok := x.indexLoopVal(h); ok {
+					return v, true
+				}
 			}
 		}
 	}
@@ -2028,6 +2054,20 @@ func (x *Exec) lookupName(name string, at *ssa.BasicBlock, st *State, allowUndef
 	if best == nil {
 		if v, ok := paramVal(); ok {
 			return v, true
+		}
+	}
+	if best == nil && name == "rangeindex" {
+		// innermost loop around the current point, written with an explicit index
+		var hb *ssa.BasicBlock
+		for h := range x.loops {
+			if (h == at || h.Dominates(at)) && (hb == nil || hb.Dominates(h)) {
+				hb = h
+			}
+		}
+		if hb != nil {
+			if v, ok := x.indexLoopVal(hb); ok {
+				return v, true
+			}
 		}
 	}
 	if best == nil && !allowUndef {
@@ -2104,4 +2144,49 @@ func domDepth(b *ssa.BasicBlock) int {
 		d++
 	}
 	return d
+}
+
+var fnOrdinals = map[string]int{}
+
+// fnOrdinal numbers function names (per process); fnIdent is an uninterpreted
+// function, so two function constants with different ordinals cannot be equal.
+func fnOrdinal(name string) int {
+	if n, ok := fnOrdinals[name]; ok {
+		return n
+	}
+	n := len(fnOrdinals) + 1
+	fnOrdinals[name] = n
+	return n
+}
+
+// indexLoopVal: for a loop written `for i := 0; i < len(s); i++`, the hidden
+// index of the equivalent range loop (i - 1) at the loop head.
+func (x *Exec) indexLoopVal(h *ssa.BasicBlock) (Val, bool) {
+	for _, in := range h.Instrs {
+		iff, ok := in.(*ssa.If)
+		if !ok {
+			continue
+		}
+		cmp, ok := iff.Cond.(*ssa.BinOp)
+		if !ok || cmp.Op != token.LSS {
+			continue
+		}
+		phi, ok := cmp.X.(*ssa.Phi)
+		if !ok || phi.Block() != h {
+			continue
+		}
+		call, ok := cmp.Y.(*ssa.Call)
+		if !ok {
+			continue
+		}
+		if b, ok := call.Call.Value.(*ssa.Builtin); !ok || b.Name() != "len" {
+			continue
+		}
+		if c0, ok := phi.Edges[0].(*ssa.Const); ok && c0.Int64() == 0 {
+			if v, ok := x.vals[phi]; ok {
+				return Val{T: fmt.Sprintf("(- %s 1)", v.T), Sort: "Int", GT: phi.Type()}, true
+			}
+		}
+	}
+	return Val{}, false
 }
